@@ -983,7 +983,8 @@ class Reaction(Object):
         if other == 0:
             return new_reaction
         else:
-            new_reaction += other
+            # a copy, the metabolites of `other` must not learn about the result
+            new_reaction += other.copy()
 
         return new_reaction
 
@@ -1041,7 +1042,8 @@ class Reaction(Object):
         Reaction - new reaction with the added properties.
         """
         new = self.copy()
-        new -= other
+        # a copy, the metabolites of `other` must not learn about the result
+        new -= other.copy()
         return new
 
     def __isub__(self, other: "Reaction") -> "Reaction":
